@@ -136,7 +136,8 @@ def opHash : P String := do
 /-- `hyp` = `Spec.baseHyp` ∧ `ρ`, `κ` are permutations (hypotheses of `C02_sort_canonical` /
     `C02_no_false_fail_noise_free_partial`); `model` = does `Spec.relabelF` produce the harness's data
     set; `canon` = both sorts succeed and agree (two argsorts); `rigid` = the remaining hypothesis
-    `hrigid` in both roles; `pass` = the ladder passes in both roles (two argsorts) -/
+    `hrigid` in both roles; `cont` = `Spec.continuousHyp` (no coincident points: `hrigid` is then a theorem);
+    `pass` = the ladder passes in both roles (two argsorts) -/
 def opRelabel : P String := do
   let f ← pMeshFields
   let ρ ← pList pNat
@@ -155,7 +156,8 @@ def opRelabel : P String := do
   let rigid := (!meshEqual t x.mesh f.mesh || ρ == idp) && (!meshEqual t f.mesh x.mesh || ρ == idp)
   let pass := Spec.ladderPasses (ladder argsortStable argsortRevTies pyTupleHash {} x f) &&
     Spec.ladderPasses (ladder argsortRevTies argsortStable pyTupleHash {} f x)
-  pure s!"hyp={showBool hyp} model={showBool (decide (x = g))} canon={showBool canon} rigid={showBool rigid} pass={showBool pass} spec=-"
+  let cont := Spec.continuousHyp f
+  pure s!"hyp={showBool hyp} model={showBool (decide (x = g))} canon={showBool canon} rigid={showBool rigid} cont={showBool cont} pass={showBool pass} spec=-"
 
 def handleC02 (op : String) : Option (P String) :=
   match op with
